@@ -52,7 +52,10 @@ theorem popWrap_w {Rw} (hw : WorldSim Rw) {a b : M N} (h : QM Rw a b) (i : Nat) 
   · split
     · cases b.2.stdin with
       | nil => exact .ok ⟨rfl, rfl, h.2⟩
-      | cons line rest => exact .ok ⟨rfl, rfl, hw.advance rest h.2⟩
+      | cons line rest =>
+        cases line with
+        | nil => exact .err h.2
+        | cons ch cs => exact .ok ⟨rfl, rfl, hw.advance rest h.2⟩
     · exact .ok ⟨rfl, rfl, h.2⟩
   · split
     · exact .err h.2
